@@ -82,7 +82,9 @@ func (g *fgen) noteQuant(env *cenv, c clause, guard string, skOnly bool) (ninst 
 		sorts = append(sorts, srt)
 		binders = append(binders, fmt.Sprintf("(%s %s)", hole, srt))
 		if _, isB := t.Underlying().(*types.Basic); isB {
-			wfs = append(wfs, g.wf(hole, t, "", 0))
+			if w := g.wf(hole, t, "", 0); w != "true" {
+				wfs = append(wfs, w)
+			}
 		}
 	}
 	inner := env.with(vars)
@@ -205,4 +207,39 @@ func replaceSym(s, v, by string) string {
 		i = end
 	}
 	return b.String()
+}
+
+var reGoalSym = regexp.MustCompile(`[A-Za-z_][A-Za-z0-9_]*(?:![0-9]+)?`)
+
+// goalTermInstances: the assumed single-variable universal clauses over Int (references
+// and integers), instantiated at the Int constants the goal mentions.  Consequences of
+// assumed facts, private to the obligation.
+func (g *fgen) goalTermInstances(goal string) []string {
+	if len(g.quantReqs) == 0 {
+		return nil
+	}
+	seen := map[string]bool{}
+	var syms []string
+	for _, m := range reGoalSym.FindAllString(goal, -1) {
+		if seen[m] {
+			continue
+		}
+		seen[m] = true
+		if g.constSort[m] == "Int" && !strings.HasPrefix(m, "alloc") {
+			syms = append(syms, m)
+		}
+	}
+	if len(syms) > 12 {
+		syms = syms[:12]
+	}
+	var out []string
+	for _, qa := range g.quantReqs {
+		if qa.sort != "Int" || qa.skOnly {
+			continue
+		}
+		for _, t := range syms {
+			out = append(out, "(assert "+implies(qa.guard, strings.ReplaceAll(qa.body, qa.hole, t))+")")
+		}
+	}
+	return out
 }
